@@ -355,6 +355,9 @@ func (r *Reader) extractTextBlock(sp *spXML) *TextBlock {
 	return block
 }
 
+// maxParagraphLevel is the deepest paragraph level PresentationML has (a:pPr lvl 0..8).
+const maxParagraphLevel = 8
+
 // extractParagraph extracts text and formatting from a paragraph.
 func (r *Reader) extractParagraph(p *pXML) Paragraph {
 	para := Paragraph{
@@ -363,7 +366,16 @@ func (r *Reader) extractParagraph(p *pXML) Paragraph {
 
 	// Get paragraph properties
 	if p.PPr != nil {
+		// The level is a number written in the file and every writer repeats
+		// the indentation that many times: keep it within the levels
+		// PresentationML has.
 		para.Level = p.PPr.Lvl
+		if para.Level < 0 {
+			para.Level = 0
+		}
+		if para.Level > maxParagraphLevel {
+			para.Level = maxParagraphLevel
+		}
 		para.Alignment = p.PPr.Algn
 
 		// Check for bullets
